@@ -651,3 +651,9 @@ Proof.
 Qed.
 
 End Proofs.
+
+Theorem ll_spgemm_safe {S : Scalar} (A B : crs S) (sort : bool) :
+  wf A = true -> wf B = true -> ncols A <= nrows B ->
+  let r := ll_spgemm (flat_of A) (flat_of B) sort in
+  r <> OutOfBounds /\ r <> UninitRead /\ r <> OutOfFuel.
+Proof. intros HA HB HAB. cbv zeta. eapply done_safe. exact (ll_spgemm_ok A B sort HA HB HAB). Qed.
